@@ -90,6 +90,9 @@ type interpreter struct {
 	canonMemo   map[int]*Term
 	domains     map[int]int
 	fe          *fastEvaluator
+	doms        map[int]*varDomain
+	scratch     []uint64
+	prefiltered int
 	dbgCount    int
 	fillProtos  []iface
 	fillPlaced  int
@@ -151,6 +154,7 @@ type Stats struct {
 	WallS          float64        `json:"wall_s"`
 	Steps          int64          `json:"steps"`
 	Concretisation int            `json:"concretisations"`
+	Prefiltered    int            `json:"prefiltered_by_domain"`
 	Asserts        map[string]int `json:"asserts_reached"`
 	Inconclusive   []string       `json:"inconclusive,omitempty"`
 	Exhausted      bool           `json:"exhausted"`
@@ -250,6 +254,7 @@ func (ex *Explorer) done(i *interpreter, res PathResult) {
 	}
 	st.Steps += int64(i.steps)
 	st.Concretisation += i.concretisations
+	st.Prefiltered += i.prefiltered
 	st.AssertQueries += i.assertQueries
 	for k, v := range i.assertsSeen {
 		st.Asserts[k] += v
@@ -441,6 +446,8 @@ func (i *interpreter) runPath(s seed) (res PathResult) {
 	i.infoMemo = nil
 	i.canonMemo = nil
 	i.domains = map[int]int{}
+	i.doms = nil
+	i.prefiltered = 0
 	i.fe = nil
 
 	defer func() {
@@ -542,6 +549,14 @@ func (i *interpreter) branchV(c *Term, hint uint64) bool {
 	if c.op == OpFalse {
 		return false
 	}
+	switch i.domainEval(c, false, false) {
+	case 1:
+		i.prefiltered++
+		return true
+	case -1:
+		i.prefiltered++
+		return false
+	}
 	n := len(i.decisions)
 	if n < len(i.prefix) {
 		d := i.prefix[n]
@@ -603,6 +618,7 @@ func (i *interpreter) pcCopy() []*Term {
 }
 
 func (i *interpreter) addPC(c *Term, taken bool) {
+	i.domainEval(c, true, taken)
 	if taken {
 		i.pc = append(i.pc, c)
 		// v == const pins a variable: later conditions over it fold to constants
@@ -686,6 +702,10 @@ func (i *interpreter) assume(v value) {
 			panic(pathAbort{"infeasible", "assumption false"})
 		}
 	case sym:
+		if i.domainEval(c.t, false, false) == 1 {
+			return
+		}
+		i.domainEval(c.t, true, true)
 		if i.evalTerm(c.t) != 0 {
 			i.pc = append(i.pc, c.t)
 			return
@@ -716,6 +736,10 @@ func (i *interpreter) assert(id string, v value, msg string) {
 		i.assertQueries++
 		ct := i.canon1(i.reduce(c.t))
 		if ct.op == OpTrue {
+			return
+		}
+		if i.domainEval(ct, false, false) == 1 {
+			i.prefiltered++
 			return
 		}
 		c = sym{c.k, ct}
